@@ -43,8 +43,7 @@ Accepted(e, T, got) == \E o \in Permitted(e, T) : Agree(got, o, T)
 
 \* the rule book without "an omitted SUFFIX matches any name_suffix" once PATH or TYPE is given
 NoWild(e, T) == IF e.p # "" \/ e.ty # "" THEN { t \in T : ~(t.s # "" /\ e.g = t.n) } ELSE T
-\* the rule book with "PATH is the directory of the first output" instead of "directory of the meson.build"
-ByOutDir(T) == { [t EXCEPT !.d = t.od] : t \in T }
+\* the rule book with "PATH is the directory of the first output" instead of "directory of the meson.build": ByOutDir
 
 ResolveClause(e, T, got) ==
     IF NoWild(e, T) # T /\ Agree(got, Outcome(e, NoWild(e, T)), NoWild(e, T)) THEN "OmittedSuffixIsWildcard"
